@@ -183,7 +183,7 @@ COLLIDING_KINDS = ["int", "int", "float", "bool", "int", "int", "bool", "int", "
 class ProgGen:
     def __init__(self, rng, wellformed=True, maxops=40, colliding=0.3, persid=0.03, memo=True,
                  unsupported=0.0, proto_frame=0.05, text_ops=True, allow_unhashable_keys=0.03,
-                 junk_after_stop=False, selfcontained=False):
+                 junk_after_stop=False, selfcontained=False, special_calls=True):
         self.rng = rng
         self.wellformed = wellformed
         self.maxops = maxops
@@ -195,6 +195,7 @@ class ProgGen:
         self.proto_frame = proto_frame
         self.text_ops = text_ops
         self.unhashable_keys = allow_unhashable_keys
+        self.special_calls = special_calls
         self.ops_used = []
 
     # -- leaves
@@ -250,8 +251,25 @@ class ProgGen:
         if r < 0.88:
             return BYTEARRAY8(V.rand_bytes(rng, maxchunks=3)), Ent("bytearray", hashable=False)
         if r < 0.93:
-            m = rng.choice([b"decimal", b"collections", b"__builtin__", b"builtins", b"_codecs", b"mod"])
-            n = rng.choice([b"Decimal", b"OrderedDict", b"bytearray", b"bytes", b"encode", b"object", b"set"])
+            if self.special_calls:
+                m = rng.choice([b"decimal", b"collections", b"__builtin__", b"builtins", b"_codecs", b"mod"])
+                n = rng.choice([b"Decimal", b"OrderedDict", b"bytearray", b"bytes", b"encode", b"object", b"set"])
+                return GLOBAL(m, n), Ent("cls")
+            if rng.random() < 0.35:
+                # the forms real picklers emit for bytes / bytearray below protocol 3 / 5
+                b = V.rand_bytes(rng, maxchunks=3)
+                u = b.decode("latin-1").encode("utf-8")
+                enc = GLOBAL(b"_codecs", b"encode") + MARK + BINUNICODE(u) + rng.choice([BINUNICODE(b"latin1"), SHORT_BINSTRING(b"latin1")]) + TUPLE + REDUCE
+                form = rng.choice(["bytes", "ba-bytes", "ba-empty", "bytes-empty"])
+                if form == "bytes":
+                    return enc, Ent("bytes")
+                if form == "ba-bytes":
+                    return GLOBAL(b"__builtin__", b"bytearray") + enc + TUPLE1 + REDUCE, Ent("bytearray", hashable=False)
+                if form == "ba-empty":
+                    return GLOBAL(b"__builtin__", b"bytearray") + EMPTY_TUPLE + REDUCE, Ent("bytearray", hashable=False)
+                return GLOBAL(b"__builtin__", b"bytes") + EMPTY_TUPLE + REDUCE, Ent("bytes")
+            m = rng.choice([b"decimal", b"collections", b"copy_reg", b"mod", b"a.b"])
+            n = rng.choice([b"Decimal", b"OrderedDict", b"_reconstructor", b"object", b"set"])
             return GLOBAL(m, n), Ent("cls")
         if r < 0.96:
             return EMPTY_TUPLE, Ent("tuple")
